@@ -338,6 +338,7 @@ def build():
     u.real_item(GEN, r"struct InsertReferencesResult\b", lambda t: common.wrap(common.pub_fields(common.strip_doc(t))), "R7")
     u.include("spec/ids.rs")
     u.include("spec/tree.rs")
+    u.include("spec/history.rs")
     u_procs.next_id_processor(u)
     u_procs.count_processor(u)
     u_procs.insert_processor(u)
